@@ -265,6 +265,58 @@ mod real {
             out.insert("tcp_connect_before_drop".into(), json!(c));
             out.insert("tcp_refused_after_drop_ms".into(), json!(refused_after));
         }
+        // C20 on every class of bind address: after the drop nobody connects for a grace period
+        // (a polling client would itself be the wake-up the accept thread may be waiting for),
+        // then the very FIRST attempt must be refused
+        {
+            let mut rows = Vec::new();
+            for (bind, via) in [
+                ("127.0.0.1:0", "127.0.0.1"),
+                ("127.0.0.2:0", "127.0.0.2"),
+                ("127.1.2.3:0", "127.1.2.3"),
+                ("0.0.0.0:0", "127.0.0.1"),
+                ("0.0.0.0:0", "127.0.0.2"),
+                ("[::1]:0", "::1"),
+                ("[::]:0", "::1"),
+                ("localhost:0", "localhost"),
+            ] {
+                for served_before in [false, true] {
+                    let server = match Server::http(bind) {
+                        Ok(s) => s,
+                        Err(e) => {
+                            rows.push(json!({"bind": bind, "bound": false, "error": e.to_string()}));
+                            continue;
+                        }
+                    };
+                    let port = server.server_addr().to_ip().unwrap().port();
+                    let target = format!("{}:{}", if via.contains(':') { format!("[{}]", via) } else { via.to_string() }, port);
+                    let mut before = true;
+                    if served_before {
+                        before = match TcpStream::connect(&target) {
+                            Ok(mut c) => {
+                                let _ = c.write_all(b"GET / HTTP/1.1\r\nHost: t\r\nConnection: close\r\n\r\n");
+                                match server.recv_timeout(Duration::from_secs(2)) {
+                                    Ok(Some(rq)) => {
+                                        let _ = rq.respond(tiny_http::Response::from_string("x"));
+                                        true
+                                    }
+                                    _ => false,
+                                }
+                            }
+                            Err(_) => false,
+                        };
+                    }
+                    drop(server);
+                    std::thread::sleep(Duration::from_millis(500));
+                    let t0 = Instant::now();
+                    let first = TcpStream::connect(&target);
+                    let refused = first.is_err();
+                    rows.push(json!({"bind": bind, "connect_to": target, "bound": true, "served_a_request_before": served_before, "served_ok": before,
+                        "first_attempt_500ms_after_drop_refused": refused, "attempt_took_us": t0.elapsed().as_micros() as u64}));
+                }
+            }
+            out.insert("tcp_drop_by_bind_address".into(), json!(rows));
+        }
         {
             let path = std::env::temp_dir().join(format!("verif-realsock-{}-drop.sock", std::process::id()));
             let _ = std::fs::remove_file(&path);
